@@ -4,6 +4,7 @@ import json
 import os
 import shutil
 import tempfile
+import time
 
 from vf import build, busproc, client, gen, hrun, report, wire
 
@@ -70,9 +71,11 @@ class World(object):
         elif k == "call":      # outstanding call from a to the owner of name (never answered)
             self.clients[step[1]].call_async(step[2], b"/o", b"com.example.I", b"Pending", b"", [])
 
-    def sync(self):
-        for c in self.clients:
-            c.barrier()
+    def sync(self, rounds=2):
+        # two rounds: traffic one client caused for another during round one is flushed by round two
+        for _ in range(rounds):
+            for c in self.clients:
+                c.barrier()
 
     def state(self):
         self.sync()
@@ -105,6 +108,14 @@ class World(object):
             c.close()
         self.daemon.stop()
         return self.daemon.problems()
+
+
+def is_harness_traffic(rec):
+    """barrier calls (GetId) of any client and their replies, as seen by an eavesdropping rule"""
+    k = rec.msg.known()
+    if rec.msg.type == 1 and k.get(3) == b"GetId" and k.get(6) == b"org.freedesktop.DBus":
+        return True
+    return False
 
 
 def summarize(rec):
@@ -168,15 +179,15 @@ def do_op(w, op, k):
     seen = {}
     for i, o in enumerate(w.clients):
         if o is c:
-            seen[i] = sorted(summarize(r) for r in caller_other)
+            seen[i] = sorted(summarize(r) for r in caller_other if not is_harness_traffic(r))
             continue
         try:
             o.barrier()
         except client.Closed:
             pass
-        seen[i] = sorted(summarize(r) for r in o.take_inbox())
+        seen[i] = sorted(summarize(r) for r in o.take_inbox() if not is_harness_traffic(r))
     if newc is not None:
-        seen["new"] = sorted(summarize(r) for r in caller_other)
+        seen["new"] = sorted(summarize(r) for r in caller_other if not is_harness_traffic(r))
     return replies, seen, w.result(), newc
 
 
@@ -237,6 +248,29 @@ def gen_case(rng):
     return setup, op, (ncl, tuple(shape), len(rules))
 
 
+def op_class(setup, op, pre):
+    """stable sub-class of the operation for violation keys: the specification's decision-table row for name
+    operations (computed by the names model from the state dump), and whether somebody eavesdrops"""
+    from vf.models import names as nm
+    eav = any(s[0] == "match" and b"eavesdrop='true'" in s[2] for s in setup)
+    cls = op[0]
+    if op[0] in ("request", "release"):
+        m = nm.Names()
+        for ln in pre:
+            if ln.startswith("N ") and not ln.startswith("N :"):
+                parts = ln.split()
+                m.q[parts[1].encode()] = [[e.split("/")[0].encode(), e.split("/")[1] == "1", e.split("/")[2] == "1"] for e in parts[2:]]
+        me = b":1.%d" % op[1]
+        if op[0] == "request":
+            row = m.request(me, op[2], op[3])[2]
+        else:
+            row = m.release(me, op[2])[2]
+        cls += ":" + row
+    elif op[0] in ("call", "usignal"):
+        cls += ":" + ("unique" if op[2][:1] == b":" else ("nobody" if op[2].endswith(b"Nobody") else "name"))
+    return cls + (":eavesdropped" if eav else "")
+
+
 def run_case(b, rundir, rng, part, cid, max_k=None):
     setup, op, shape = gen_case(rng)
     wit = {"case": cid, "setup": [repr(s) for s in setup], "op": repr(op)}
@@ -244,6 +278,7 @@ def run_case(b, rundir, rng, part, cid, max_k=None):
     w = World(b, rundir, setup, "ref")
     try:
         pre = w.state()
+        ocls = op_class(setup, op, pre)
         replies, seen, res, newc = do_op(w, op, 1 << 30)
         post = w.state()
         ref = (reply_class(replies), seen, post)
@@ -260,7 +295,7 @@ def run_case(b, rundir, rng, part, cid, max_k=None):
     if len(ref[0]) > 1 and op[0] == "removematch":
         return   # known C07 finding (two replies): not an OOM matter, skip this operation
     part.count("allocations-enumerated", n_alloc)
-    part.count("op:" + op[0])
+    part.count("op:" + ocls)
     ks = range(n_alloc) if max_k is None else range(min(n_alloc, max_k))
     w = World(b, rundir, setup, "k")
     dirty = False
@@ -269,13 +304,12 @@ def run_case(b, rundir, rng, part, cid, max_k=None):
             if dirty:
                 probs = w.close()
                 for cls, site, text in probs:
-                    part.violation("%s:%s:%s" % (PROP, cls, site), "daemon reported %s" % cls, dict(wit, k=k - 1, stderr=text[-2500:]))
+                    part.violation("%s:%s:%s:%s" % (PROP, _norm(cls), site, ocls), "daemon reported %s" % cls, dict(wit, k=k - 1, stderr=text[-2500:]))
                 shutil.rmtree(w.rundir, ignore_errors=True)
                 w = World(b, rundir, setup, "k")
                 dirty = False
                 part.count("state-rebuilds")
             if not w.daemon.alive():
-                part.violation("%s:daemon-died:%s" % (PROP, op[0]), "daemon died under allocation failure", dict(wit, k=k))
                 dirty = True
                 continue
             pre_k = w.state()
@@ -285,9 +319,18 @@ def run_case(b, rundir, rng, part, cid, max_k=None):
             try:
                 replies, seen, res, newc = do_op(w, op, k)
                 post_k = w.state()
-            except (client.Timeout,):
-                part.violation("%s:hang:%s" % (PROP, op[0]), "no progress after failing allocation %d" % k, dict(wit, k=k))
+            except (client.Timeout, client.Closed) as e:
                 dirty = True
+                for _ in range(40):        # an aborting daemon needs a moment to print its backtrace and die
+                    if not w.daemon.alive():
+                        break
+                    time.sleep(0.05)
+                if not w.daemon.alive():
+                    # the reason is in the daemon's stderr and is reported (with this operation class) when it is reaped
+                    part.count("daemon-died-during-k")
+                    pending_died = (k, ocls)
+                else:
+                    part.violation("%s:hang:%s" % (PROP, ocls), "no progress after failing allocation %d (%s)" % (k, type(e).__name__), dict(wit, k=k))
                 continue
             part.evaluations += 1
             rc = reply_class(replies)
@@ -301,7 +344,7 @@ def run_case(b, rundir, rng, part, cid, max_k=None):
                 part.count("fault-not-reached")
             if (rc, seen, post_k) == ref:
                 part.count("world:succeeded")
-                part.sig(op[0], shape, "succeeded")
+                part.sig(ocls, shape, "succeeded")
                 dirty = dirty or (post_k != pre)
                 continue
             state_same = (post_k == pre) or (op[0] == "hello" and _same_but_incomplete(post_k, pre))
@@ -309,44 +352,49 @@ def run_case(b, rundir, rng, part, cid, max_k=None):
             one_nomem = (rc == (("error", NOMEM),))
             if state_same and others_quiet and one_nomem:
                 part.count("world:failed-cleanly")
-                part.sig(op[0], shape, "failed")
+                part.sig(ocls, shape, "failed")
                 continue
             # in between: classify
             dirty = True
             if one_nomem and not state_same:
-                key = "state-changed-but-NoMemory:%s" % op[0]
+                key = "state-changed-but-NoMemory:%s" % ocls
                 what = "caller got NoMemory but the state changed"
                 wk["pre"] = list(pre)
                 wk["post"] = list(post_k)
             elif one_nomem and not others_quiet:
-                key = "signals-sent-but-NoMemory:%s" % op[0]
+                key = "signals-sent-but-NoMemory:%s" % ocls
                 what = "caller got NoMemory but other clients received messages"
                 wk["seen"] = repr(seen)
             elif rc == ("none",):
-                key = "no-reply:%s" % op[0]
+                key = "no-reply:%s" % ocls
                 what = "the caller received no reply at all (state %s)" % ("unchanged" if state_same else "changed")
             elif len(rc) > 1:
-                key = "several-replies:%s" % op[0]
+                key = "several-replies:%s" % ocls
                 what = "the caller received %d replies" % len(rc)
             elif rc == ref[0]:
-                key = "partial-effects:%s" % op[0]
+                key = "partial-effects:%s" % ocls
                 what = "reply as in the fault-free run but state or signals differ from it"
                 wk["post"] = list(post_k)
                 wk["ref_post"] = list(ref[2])
                 wk["seen"] = repr(seen)
                 wk["ref_seen"] = repr(ref[1])
             else:
-                key = "other-outcome:%s" % op[0]
+                key = "other-outcome:%s" % ocls
                 what = "outcome is neither the fault-free one nor a clean NoMemory failure: %r" % (rc,)
             part.violation("%s:%s" % (PROP, key), what, wk)
-            part.sig(op[0], shape, key)
+            part.sig(ocls, shape, key)
     finally:
         probs = w.close()
         for cls, site, text in probs:
-            part.violation("%s:%s:%s" % (PROP, cls, site), "daemon reported %s" % cls, dict(wit, stderr=text[-2500:]))
+            part.violation("%s:%s:%s:%s" % (PROP, _norm(cls), site, ocls), "daemon reported %s" % cls, dict(wit, stderr=text[-2500:]))
         shutil.rmtree(os.path.join(rundir, "k"), ignore_errors=True)
         shutil.rmtree(os.path.join(rundir, "ref"), ignore_errors=True)
     part.count("cases")
+
+
+def _norm(cls):
+    import re
+    return re.sub(r"com\.example\.[A-Za-z]+", "NAME", cls)
 
 
 def _same_but_incomplete(post, pre):
